@@ -15,7 +15,8 @@ CFG = {
             "array in order and every operation's tag array, byte equality of the three writes (three quarters of the "
             "tables carry tags drawn from a pool with case-only variants, prefix pairs, a non-ASCII and an empty name, "
             "some of them defined by the tag configuration); and lookup_route answers each endpoint's own witness request at that version. One case = one "
-            "table with all versions; non-trivial: at least two endpoints; distinct by case content. A second stream "
+            "table with all versions (plus the router's large-scope tables: depth up to 65, up to 257 sibling paths, "
+            "1 KiB literals, 17 ranges on one path, 33 variables, every endpoint tagged from a set of ~140 tags); non-trivial: at least two endpoints; distinct by case content. A second stream "
             "(group deps) gives a query parameter a schema that refers into a random definition graph (chains, "
             "branching, cycles, unreachable definitions) and compares the keys found under components.schemas with "
             "the dependency closure computed by the RefClosure model.",
